@@ -174,10 +174,12 @@ func (e *Engine) verifyFunction(fn *ssa.Function, spec *FuncSpec) *Gen {
 		}
 		// a body tagged ghost-pure (callers keep their ghost state across the call) must
 		// leave every ghost variable unchanged
-		if spec.Tags["ghost-pure"] {
+		if frame, explicit := e.specs.ghostFrame(spec); explicit {
 			var gk []string
 			for k := range r.st.ghosts {
-				gk = append(gk, k)
+				if !frame[k] {
+					gk = append(gk, k)
+				}
 			}
 			sort.Strings(gk)
 			var conj []Term
